@@ -179,7 +179,7 @@ def remap_on_success(ctx, rule='C11.remap-on-success'):
         (rz,) = ctx.need('resize-role')
     except AnchorError as e:
         return [unresolved(rule, str(e))]
-    fn = rz
+    fn = ctx.x(rz)       # the remapping may live in a private helper of the resize role
     F = ctx.facts
     E = ctx.E
     # M stores in the resize role
@@ -232,6 +232,28 @@ def remap_on_success(ctx, rule='C11.remap-on-success'):
     return res
 
 
+def _eq_comparisons(e, depth=0):
+    """[(lhs, rhs)] of the ==/!= comparisons inside a symbolic expression"""
+    out = []
+    if depth > 12 or not isinstance(e, tuple):
+        return out
+    if e[0] == 'bin' and e[1] in ('Eq', 'Ne'):
+        out.append((e[2], e[3]))
+    if e[0] == 'call' and last_seg(strip_generics(e[1])) in ('eq', 'ne') and len(e[2]) == 2:
+        out.append((e[2][0], e[2][1]))
+    if e[0] in ('bin', 'un'):
+        for x in e[2:]:
+            out += _eq_comparisons(x, depth + 1)
+    return out
+
+
+def _only_via_err(T, h, node):
+    """is `node` unreachable from the success edge once the error edge node is removed?  (i.e. it lies on the error handling path only)"""
+    if 'ok_node' not in h:
+        return True
+    return node not in T.reach({h['ok_node']})
+
+
 def header_error_edge(ctx, rule='C11.O5e'):
     """after a FAILED header write the state is ambiguous (write(2) may have been partial and the new header may already be
     valid and visible through the map): every exit on the error edge of H must re-read the header (header-selection role)
@@ -257,6 +279,46 @@ def header_error_edge(ctx, rule='C11.O5e'):
                            'is still the old one' % h['loc'], where=h['loc'], path=T.describe_path(T.path({h['err_node']}, offending[0], avoid=HDR | P) or [])))
         else:
             res.append(ok(rule, 'the error edge of the header write at %s re-reads the header or publishes before leaving' % h['loc'], sites=1))
+        # a publication on the error edge must be decided by "the header that is current now carries THIS transaction's id"
+        hdr_fn = ctx.A.get('DBInner::meta')
+        after_err = T.reach({h['err_node']})
+        for pe in T.events('P'):
+            if pe['node'] not in after_err or pe.get('summary'):
+                continue
+            n = T.nodes[pe['node']]
+            # only publications that are not also reachable from the success edge count as error-edge publications
+            if 'ok_node' in h and pe['node'] in T.reach({h['ok_node']}, avoid={h['err_node']}) and not _only_via_err(T, h, pe['node']):
+                continue
+            fn, bb = n.fn, n.bb
+            decided = False
+            seen_cmp = []
+            # the deciding test may sit in a caller of the function that publishes: climb the trace context
+            frames = [(fn, bb)] + [(c[0], c[1]) for c in reversed(n.ctx)]
+            ctrl = []
+            for (ffn, fbb) in frames:
+                for (a, sx) in ffn.control_deps_transitive(fbb):
+                    ctrl.append((ffn, a))
+            for (ffn, a) in ctrl:
+                at = ffn.term(a)
+                if at['k'] != 'switch':
+                    continue
+                du = ctx.du(ffn)
+                e = du.sym(at['discr'])
+                for cmpx in _eq_comparisons(e):
+                    l, r = cmpx
+                    fl = l[2][-1] if l[0] == 'field' else None
+                    fr = r[2][-1] if r[0] == 'field' else None
+                    seen_cmp.append('%s == %s' % (fl, fr))
+                    mentions_hdr = lambda x: hdr_fn is not None and hdr_fn.path in repr(x)
+                    if fl == 'tx_id' and fr == 'tx_id' and (mentions_hdr(l) != mentions_hdr(r)):
+                        decided = True
+            if decided:
+                res.append(ok(rule, 'publication at %s on the error edge is decided by comparing the re-read header\'s tx_id with the transaction\'s' % n.loc(), sites=1))
+            else:
+                res.append(bad(rule, '%s | error-edge publication not decided by the transaction id' % fn.qual,
+                               'after a failed header write the free list is published at %s, but the decision is not `current header.tx_id == this transaction\'s tx_id` '
+                               '(comparisons found: %s): the new free list can be published although the old header is still current, or withheld although the new one took effect'
+                               % (n.loc(), ', '.join(seen_cmp) or 'none'), where=n.loc()))
     if not H:
         res.append(floor(rule, 'header writes', 0, 1))
     return res
@@ -344,6 +406,9 @@ def run(ctx, tier):
     results += remap_on_success(ctx)
     results += buffered_flush(ctx)
     results += shared_state(ctx)
+    import c12, c16
+    results += c12.select_total(ctx, rule='C11.select')
+    results += c16.grow(ctx, rule='C11.grow')
     results += ob['O1'] + ob['O2'] + ob['O3']
     import c02
     results += c02.alternate_rule(ctx, rule='C11.alternate')
